@@ -321,9 +321,23 @@ func randSubsetOf(r *rand.Rand, set uint32, nonEmpty bool) uint32 {
 	return m
 }
 
+// genTimeout: milliseconds as a runtime would pass them — a quarter of the time none at all
+// (zero: older runtimes), rarely a negative value, otherwise 2 s … 100 s (the stub registers
+// again under the registration timeout it was given: a few milliseconds would make a restart
+// fail for honest reasons on a busy machine).
+func genTimeout(r *rand.Rand) int64 {
+	switch k := r.Intn(20); {
+	case k < 5:
+		return 0
+	case k == 5:
+		return -int64(r.Intn(1000)) - 1
+	}
+	return int64(2000 + r.Intn(98000))
+}
+
 func cfgIn(r *rand.Rand, events uint32, err string) CfgIn {
 	return CfgIn{Config: rstr(r, 20), RName: rstr(r, 8), RVer: "v" + rstr(r, 5),
-		RegTo: int64(r.Intn(100000)), ReqTo: int64(r.Intn(100000)), Events: events, Err: err}
+		RegTo: genTimeout(r), ReqTo: genTimeout(r), Events: events, Err: err}
 }
 
 // sessionsFor produces the cases for one set of implemented events.
@@ -451,6 +465,14 @@ func restartsFor(r *rand.Rand, ev uint32, patterns []string) []SessionIn {
 				reqs = append(reqs, syncReq(r, false, false))
 			}
 			in.Sessions = append(in.Sessions, SessIn{Cfg: cfgIn(r, m, e), Reqs: reqs, End: end})
+		}
+		// a fixed share of the restart cases starts with a runtime that passes no registration
+		// timeout (resp. no request timeout): later sessions must still register and be configured
+		switch len(out) % 3 {
+		case 0:
+			in.Sessions[0].Cfg.RegTo = 0
+		case 1:
+			in.Sessions[0].Cfg.ReqTo = 0
 		}
 		out = append(out, in)
 	}
